@@ -304,6 +304,7 @@ def run(ctx, rep):
     from .C08 import writer_error_counted_rule
     writer_error_counted_rule(P, rep, 'R-C13-11')
     scan_thread_shared_set_rule(P, rep, 'R-C13-12')
+    writer_error_clear_after_report_rule(P, rep, 'R-C13-6r')
 
 
 def scan_thread_shared_set_rule(P, rep, rid):
@@ -359,6 +360,35 @@ def scan_thread_shared_set_rule(P, rep, rid):
             m_, base(g.name), c.line, ', '.join(sorted({'%s:%s' % (base(x[0].name), x[1].line) for x in muts[m_]}))), function='state_diffscan', construct='%s looked up across disks in the threaded phase' % m_)
     else:
         rep.ok(rid, 'sets modified by the scan threads (%s) are not looked up across disks' % sorted(muts))
+
+
+def writer_error_clear_after_report_rule(P, rep, rid):
+    """with write-behind threads a parity write can fail at any moment between two calls of the main thread.  The accumulator
+    io->writer_error[] may therefore be cleared only in the same critical section that hands its content to the caller: a clearing
+    anywhere else (say in the preset of the next stripe, as the single-thread engine does -- there nothing runs concurrently) erases
+    the errors that arrived since the last report, and sync ends `Everything OK` after a failed parity write."""
+    rep.rule(rid, 'threaded io engine: io->writer_error[] is zeroed only after the same function copied it to the caller (no clearing outside the reporting critical section)', 1)
+    n = 0
+    for f in P.defined():
+        if not (f.file or '').endswith('cmdline/io.c') or not base(f.name).endswith('_thread'):
+            continue
+        zero = [i for i in f.all_insts() if i.op == 'store' and 'io->writer_error[' in f.expr(i.ops[1]) and f.const_of(i.ops[0]) == 0]
+        if not zero:
+            continue
+        rep.analysed(f)
+        rd = [i for i in f.all_insts() if i.op == 'load' and 'io->writer_error[' in f.expr(['i', i.id])]
+        thru = list(rd) + [f.blocks[f.loop_of(r.block)][0] for r in rd if f.loop_of(r.block) is not None]
+        creates = list(f.calls('thread_create'))
+        for z in zero:
+            # initialisation: cleared before the first worker thread exists
+            if creates and z.id not in f.reach(creates):
+                continue
+            n += 1
+            ok = bool(rd) and f.must_pass(z, thru)
+            rep.check(ok, rid, '%s: clearing of io->writer_error[] at line %s' % (base(f.name), z.line), z.loc(), 'after the report in the same function' if ok else 'io->writer_error[] is cleared in a function of the threaded engine that does not report it first: the write errors that the writer threads recorded since the last report are erased, the failing stripes stay recorded as synced and sync exits 0',
+                      function=base(f.name), construct='writer_error cleared without report')
+    if n < 1:
+        raise AnalysisBroken('threaded engine: no clearing of io->writer_error[] found')
 
 
 TYPE_BITS = {'unsigned char': 8, 'char': 8, 'signed char': 8, 'unsigned short': 16, 'short': 16, 'unsigned int': 32, 'int': 32, 'unsigned': 32,
